@@ -10,6 +10,7 @@ import Driver.Export
 import Driver.Split
 import Driver.Cache
 import Driver.Crash
+import Driver.Timeout
 
 open Lean Driver
 
@@ -25,6 +26,8 @@ def dispatch (op : String) (inp out : Json) : Json :=
   | "split" => runSplit inp out
   | "cache" => runCacheOp inp out
   | "crashwrite" => runCrash inp out
+  | "timeout" => runTimeoutOp inp out
+  | "timeoutrace" => runTimeoutOp inp out
   | _ => Json.mkObj [("same", Json.bool false), ("diff", Json.str s!"unknown op {op}"), ("fails", Json.arr #[])]
 
 partial def loop (h : IO.FS.Stream) (o : IO.FS.Stream) : IO Unit := do
